@@ -324,14 +324,6 @@ func runC20(sci interface{}) {
 		srv.Foreign = []world.Spec{{NS: "n1", Name: "foreign0", Kind: sc.Foreign, RV: "1", Labels: map[string]string{"app": "a"}}}
 	}
 	log := world.NewLog(false)
-	overflow := false
-	log.Hook = func(level, comp, msg string) {
-		if strings.Contains(msg, "buffer full") || strings.Contains(msg, "buffer overrun") {
-			// more in flight than the (tiny) buffers hold: the two sides may lose different events
-			overflow = true
-			detsim.Count("probe:c20-overflow-run-not-compared")
-		}
-	}
 	ctx, cancel := context.WithCancel(context.Background())
 	defer cancel()
 	troot, err := build(ctx, log, srv)
@@ -433,7 +425,10 @@ func runC20(sci interface{}) {
 		}
 		detsim.HoldTime(true)
 		defer detsim.HoldTime(false)
-		if overflow {
+		if detsim.TotalDrops() > 0 {
+			// a non-blocking hand-off found its (tiny) buffer full somewhere: the
+			// two sides may have lost different events - counted, not compared
+			detsim.Count("probe:c20-overflow-run-not-compared")
 			return
 		}
 		cmpLists("root", troot, uroot)
